@@ -18,7 +18,7 @@ RULE = (
 )
 ASSUMPTIONS = ['virtual time; liveness judged as bounded safety (progress-based stall detector)', 'no firing timeouts; stop() only in the dedicated sub-family (trees it leaves unprocessed are not judged); history unlimited or default 50 with < 50 events']
 
-P = Profile(raises=0.2, actor_ops=['disp', 'disp', 'sleep', 'await', 'await', 'awaitdesc', 'yield'], max_actor_ops=6, maxdepth=[2, 3, 3], wild=0.15, fwd=0.35, xp=0.05, modes=['await', 'later', 'ff', 'ff'], deep_wild=True)
+P = Profile(raises=0.2, actor_ops=['disp', 'disp', 'disp', 'sleep', 'await', 'await', 'await', 'awaitdesc', 'yield', 'expect'], max_actor_ops=6, maxdepth=[2, 3, 3], wild=0.15, fwd=0.35, xp=0.05, modes=['await', 'later', 'ff', 'ff'], deep_wild=True)
 
 
 def budget(tier):
@@ -57,6 +57,12 @@ def classes(F):
         cl.append('fire-and-forget-child')
     if any(r['k'] == 'disp' and r.get('xp') for r in F.tr):
         cl.append('explicit-parent')
+    for r in F.tr:
+        if r['k'] == 'a-expect-end':
+            cl.append('expect:' + r['out'])
+            b = next((x for x in reversed(F.tr[: r['i']]) if x['k'] == 'a-expect-begin' and x['actor'] == r['actor']), None)
+            if b is not None and any(m[0] == r['bus'] for m in F.running_at(r['i'])):
+                cl.append('expect-ended-while-a-handler-of-that-bus-was-running')
     for r in F.tr:
         if r['k'] == 'a-stop-begin':
             cl.append('stop:' + ('handler-in-flight' if r['busy'] else ('running-idle' if r['started'] else 'never-started')))
